@@ -37,17 +37,17 @@ fn pseudo(seed: u64, len: usize) -> Vec<u8> {
 }
 
 /// value for a model kind: fixed tier t (1-based) or a chain of n parts of the multipart table
-fn slot_value(nt: u64, t: u64, n: u64, seed: u64, compressed: bool) -> Vec<u8> {
+fn slot_value(nt: u64, t: u64, n: u64, seed: u64, compressed: bool, rc: usize) -> Vec<u8> {
     if t < nt {
-        return pseudo(seed, FIXED_LEN[(t - 1) as usize % 2] - (seed % 2) as usize)
+        return pseudo(seed, FIXED_LEN[(t - 1) as usize % 2] - rc - (seed % 2) as usize)
     }
     // remainder R = len + 26 (key tail) takes n parts iff (n-1)*4086 + 8 < R <= (n-1)*4086 + 4094
     let n = n as usize;
     if !compressed {
-        return pseudo(seed, (n - 1) * 4086 + 100 + (seed % 3000) as usize - 26)
+        return pseudo(seed, (n - 1) * 4086 + 100 + (seed % 3000) as usize - 26 - rc)
     }
     // incompressible body aimed at the middle of the window (lz4 adds about 1 byte per 255 literals), then zeros
-    let mut v = pseudo(seed, (n - 1) * 4086 + 1800 - 26);
+    let mut v = pseudo(seed, (n - 1) * 4086 + 1800 - 26 - rc);
     v.extend(std::iter::repeat(0u8).take(6000));
     v
 }
@@ -68,6 +68,8 @@ pub fn cmd_slots_replay(args: &HashMap<String, String>) -> i32 {
     let input = std::fs::read_to_string(&args["in"]).expect("read");
     let variant = args.get("variant").cloned().unwrap_or_default();
     let compressed = variant == "lz4" || variant == "snappy";
+    // counting column (Slots.tla RC): 4 more bytes per entry, the value is a function of the key
+    let rc: usize = if variant == "rc" { 4 } else { 0 };
     let root = scratch_root();
     let mut outf = std::io::BufWriter::new(std::fs::File::create(&args["out"]).unwrap());
     let mut nviol = 0;
@@ -84,6 +86,10 @@ pub fn cmd_slots_replay(args: &HashMap<String, String>) -> i32 {
         }
         if variant == "snappy" {
             col.compression = CompressionType::Snappy;
+        }
+        if rc > 0 {
+            col.ref_counted = true;
+            col.preimage = true;
         }
         let mk_opts = |d: &std::path::Path| -> Options {
             let mut o = Options::with_columns(d, 0);
@@ -117,7 +123,8 @@ pub fn cmd_slots_replay(args: &HashMap<String, String>) -> i32 {
                 match a {
                     "set" => {
                         let k = st["k"].as_u64().unwrap();
-                        let v = slot_value(nt, st["t"].as_u64().unwrap(), st["n"].as_u64().unwrap(), (idx * 1000 + i) as u64 + 7, compressed);
+                        let vseed = if rc > 0 { k * 7919 + 3 } else { (idx * 1000 + i) as u64 + 7 };
+                        let v = slot_value(nt, st["t"].as_u64().unwrap(), st["n"].as_u64().unwrap(), vseed, compressed, rc);
                         pending.push((0, Operation::Set(slot_key(k), v)));
                         continue
                     },
@@ -228,7 +235,7 @@ pub fn cmd_slots_replay(args: &HashMap<String, String>) -> i32 {
                                 if s[0] == 0xfd && s[1] == 0x7f {
                                     cheads += 1;
                                 }
-                                key_tail = Some(if multi { s[10..36].to_vec() } else { s[2..28].to_vec() });
+                                key_tail = Some(if multi { s[10 + rc..36 + rc].to_vec() } else { s[2 + rc..28 + rc].to_vec() });
                             }
                             if !multi || chain.len() > 10_000 {
                                 break
